@@ -109,6 +109,25 @@ CHECKS['C07'] = dict(
    note='arrival orders sampled; the protocol model is bound to the code through the abstract events only (no step replay)',
    technique='TLA+ protocol model checked by TLC + TLC trace validation of filter events against PipeAbs',
    design='4 (C07)')
+CHECKS['C01'] = dict(
+   text='TLC model-checks TaskPool (arena_slot spawn incl. pool relocation, get_task, steal_task: 1 owner x 2 thieves, access granularity, real pool size), '
+        'Mailbox (task_proxy two-sided claim, outbox push/pop), WaitTree (wait_context / reference_vertex forwarding over a 5-task tree) and PoolState '
+        '(no lost enqueued task). Every edge of the TaskPool state graph (100k edges) is replayed on a real arena_slot inside a real arena, head/tail/lock word '
+        'compared after every step (zero drift), Spawn/Got events validated (no task returned twice, none lost). Integrated scenarios (nested groups, tasks that '
+        'submit tasks to the waited group, enqueued and deferred task handles, run_and_wait, execute) on 2-4 logical threads of all-reserved arenas under '
+        'seeded random cooperative schedules over every scheduler atomic are validated by TLC against SchedAbs (exactly once; the wait covers all work and sees its writes).',
+   note='edge-complete replay only for the TaskPool instance; Mailbox/WaitTree/PoolState bound to the code through the integrated scenarios only; RML worker entry/leave not covered (all-reserved arenas); interleavings needing >4 threads not explored',
+   technique='PlusCal protocol specs checked by TLC, edge-complete replay into the real arena_slot, TLC trace validation against SchedAbs',
+   design='4 (C01)')
+CHECKS['C20'] = dict(
+   text='TLC model-checks Suspend (the m_stack_state hand-shake between the suspending thread, a resumer and a third dispatching thread): at most one '
+        'continuation, only after resume, only after the stack was left, and eventually exactly one under weak fairness. Real tbb::task::suspend/resume '
+        'scenarios (resume from another task on a thief, from the suspend callback itself, from a foreign thread incl. arenas of size 1 = owner recall, two '
+        'suspended units resumed in reverse order) on 1-4 logical threads under seeded random cooperative schedules are validated by TLC against SchedAbs '
+        '(Suspend/Resume/Continue exactly once, the enclosing wait does not return while a covered unit is suspended, other work keeps running).',
+   note='schedules sampled; nested suspension inside a resumed continuation and suspension at nested dispatch levels are not separately driven',
+   technique='TLA+ protocol model (safety + liveness) checked by TLC + TLC trace validation of real suspend/resume runs against SchedAbs',
+   design='4 (C20)')
 REASON_PENDING = 'check not built yet in this round (planned in DESIGN.md section 4); no verdict is claimed'
 m = {
  'version': 1,
